@@ -87,3 +87,44 @@ C04_FLOW_UNDECIDED = {
     'stdnum.th.tin': 'the fallback `return number` is reached only when no sub-type accepts the number, i.e. for numbers validate() rejects',
     'stdnum.isan': C04_UNDECIDED['stdnum.isan'], 'stdnum.meid': C04_UNDECIDED['stdnum.meid'],
 }
+
+
+def sink_key(key):
+    """Scope entries name module|function|construct; what identifies the undecided operation is the function and the operation
+    it applies (the callee up to its argument list), not the spelling of the arguments: `int('%d%s' % (c, n[0:2]))` and
+    `int(f'{c}{n[0:2]}')` are the same sink."""
+    parts = key.split('|', 2)
+    if len(parts) != 3:
+        return key
+    c = parts[2]
+    i = c.find('(')
+    return '%s|%s|%s' % (parts[0], parts[1], c[:i] if i > 0 else c)
+
+
+class SinkScope(dict):
+    """dict keyed by module|function|construct that also answers for another spelling of the same operation in the same function"""
+
+    def _alt(self, key):
+        k2 = sink_key(key)
+        for k in dict.keys(self):
+            if sink_key(k) == k2:
+                return k
+        return None
+
+    def __contains__(self, key):
+        return dict.__contains__(self, key) or self._alt(key) is not None
+
+    def __getitem__(self, key):
+        if dict.__contains__(self, key):
+            return dict.__getitem__(self, key)
+        k = self._alt(key)
+        if k is None:
+            raise KeyError(key)
+        return dict.__getitem__(self, k)
+
+    def get(self, key, default=None):
+        return self[key] if key in self else default
+
+
+C01_UNDECIDED_SINKS = SinkScope(C01_UNDECIDED_SINKS)
+C12_UNDECIDED_SINKS = SinkScope(C12_UNDECIDED_SINKS)
